@@ -370,6 +370,37 @@ theorem g5_step (cfg : Cfg) (x x' : X) (l : Label) (h : G5 x) (g2 : G2 cfg x)
           exact this hg
         exact ⟨j0, h1, h2, by simpa [upd, hne] using h3, h4⟩
     · cases hs
+  | mainFail j =>
+    simp only [step] at hs
+    split at hs
+    · rename_i hg; cases hs
+      obtain ⟨g1, g2', g3, g4, g5⟩ := hg
+      have hne : x.res j ≠ .none := by rw [g2']; simp
+      refine ⟨r1, ?_, ?_, r6, ?_, ?_, ?_⟩
+      · intro k hk hp
+        by_cases e : k = j
+        · subst e; rw [g1] at hp; cases hp
+        · exact r2 k (by simpa [upd, e] using hk) hp
+      · intro k hk
+        by_cases e : k = j
+        · subst e; exact r5 k hne
+        · exact r5 k (by simpa [upd, e] using hk)
+      · intro k hk
+        by_cases e : k = j
+        · subst e; exact r7 k hne
+        · exact r7 k (by simpa [upd, e] using hk)
+      · intro i hf hd k hk hne'
+        have := r3 i hf hd k hk hne'
+        by_cases e : k = j
+        · subst e; rw [g1] at this; simp at this
+        · simpa [upd, e] using this
+      · intro hsu
+        obtain ⟨j0, h1, h2, h3, h4⟩ := r4 hsu
+        have hne0 : j0 ≠ j := by
+          intro e; subst e
+          exact g5 h1 hsu
+        exact ⟨j0, h1, h2, by simpa [upd, hne0] using h3, h4⟩
+    · cases hs
   | setResult j =>
     simp only [step] at hs
     split at hs
